@@ -167,3 +167,11 @@ Print Assumptions code_Translate.
 Theorem code_MulAff3 : forall x y a, go_generate_MulAff3 x y a = Generator.mul_aff3 x y a.
 Proof. exact GenEqGeom.go_MulAff3_eq. Qed.
 Print Assumptions code_MulAff3.
+
+Theorem code_Concat : forall affs, go_generate_Concat affs = Generator.concat affs.
+Proof. exact GenEqGeom.go_Concat_eq. Qed.
+Print Assumptions code_Concat.
+
+Theorem code_Scale : forall sx sy, go_generate_Scale [sx; sy] = Generator.scale2 sx sy.
+Proof. exact GenEqGeom.go_Scale2_eq. Qed.
+Print Assumptions code_Scale.
